@@ -12,14 +12,14 @@ CHECKS = {
    "Partial. Decides necessary conditions of correct f64 rounding that are visible statically: every Float-for-f64 constant equals its IEEE-derived definition or lies on the necessary side of its bound, and every power-table entry equals its definition, in each configuration. Does NOT decide that the rounding algorithms are correct."),
  "C02": ("other", "5.2", TECH_K + "; mono call-graph rule for single rounding",
    "Partial. Same constant/table rules for f32, plus the single-rounding structure: no f64 value, float-to-float cast or f64-instantiated function is reachable from parse_float::<f32>. Does NOT decide the algorithms."),
- "C05": ("other", "5.5", TECH_K,
-   "Partial. Constants shared by name agree across configurations; configuration-specific tables and cut-offs each meet their definition. Bit-equality of different algorithms is NOT decided."),
+ "C05": ("other", "5.5", TECH_K + "; abstract interpretation of both moderate stages for the early-out post-condition",
+   "Partial. Constants shared by name agree across configurations; configuration-specific tables and cut-offs each meet their definition; the early zero/infinity exits of Eisel-Lemire and Bellerophon are each implied by the exponent bound of their path (so the two siblings agree on them). Bit-equality of different algorithms is NOT decided."),
  "C06": ("other", "5.6", TECH_K,
    "Partial. MAX_DIGITS >= longest exact midpoint expansion (computed exactly) and the big-integer capacity formula. Rounding of the truncated value is NOT decided."),
  "C07": ("other", "5.7", TECH_K,
    "Partial. Decimal cut-offs imply zero/infinity for both moderate stages. Subnormal rounding results are NOT decided."),
- "C11": ("other", "5.11", TECH_K,
-   "Partial. Tie-window bounds, table coverage and table contents. That a definite answer is correctly rounded is NOT decided."),
+ "C11": ("other", "5.11", TECH_K + "; abstract interpretation of the monomorphic MIR of the stage (carry-test rule, early-out post-conditions)",
+   "Partial. Tie-window bounds, table coverage and table contents; every ordering test between a wrapping 64-bit sum and one of its addends in the Eisel-Lemire product is equivalent to the carry; every early zero/infinity exit of the stage is implied by the exponent bound of its path. That a definite answer is correctly rounded is NOT decided."),
  "C12": ("other", "5.12", TECH_E,
    "Partial. No result of a fallible library call is dropped unread (MIR def-use, all configurations); 5^135 and 5^i constants exact. Exactness of carry chains is NOT decided."),
  "C14": ("proof", "5.14", "static analysis: compiler-evaluated constants checked exhaustively against definitions (no execution of the parser)",
@@ -28,8 +28,8 @@ CHECKS = {
    "Decides the property for all inputs at once: no alloc-crate instance reachable on the monomorphic call graph from parse_float, no alloc item mentioned anywhere in the library, no indirect calls, no extern crate alloc, in every non-alloc configuration. Controls: alloc configurations and fixture."),
  "C16": ("other", "5.16", TECH_E,
    "Decides purity structurally: no mutable/interior-mutable global, no address-observing operation, generic iterators only advanced/cloned/counted, identical library call shape for Chain/Filter/slice iterators, no uninitialised-value API, asm confined. Reads below StackVec.length are decided under C13."),
- "C17": ("other", "5.17", TECH_K,
-   "Partial. All mask/bias/size constants of both Float impls equal the IEEE definitions. Helper bodies: see evidence."),
+ "C17": ("other", "5.17", TECH_K + "; interval abstract interpretation of the helper bodies over a finite partition of all bit patterns",
+   "All mask/bias/size constants of both Float impls equal the IEEE definitions. Helper bodies (is_denormal, exponent, mantissa, slow::b, slow::bh, extended_to_float): for every class of a partition of ALL bit patterns into 26 intervals (sign x exponent-field class x fraction class) the abstract result lies inside the interval the IEEE-754 decoding assigns to that class; exact on the boundary classes (exponent field 0, 1, max-1, max; fraction 0 and all-ones), an interval inclusion inside the wide middle class. next/previous-float helpers do not exist in this crate."),
  "C18": ("other", "5.18", TECH_K,
    "Partial. Constants consumed by the rounding primitive equal their definitions. The nearest-even decision is NOT decided."),
 }
@@ -54,6 +54,7 @@ CHECKS.update({
  "C12": ("other", "5.12", TECH_E + "; " + TECH_A,
    "Partial. Failure discipline (no fallible result dropped unread), no wrapping_* limb arithmetic, every non-wrapping operator in bigint.rs/stackvec.rs proven overflow-free and every narrowing cast value-preserving or an audited half of the widening idiom (modular, under the vector invariant), 5^135 / 5^i constants exact. Exactness of carry chains is NOT decided."),
 })
+E4P = ("C04", "C05", "C06", "C07", "C08", "C11", "C12", "C13", "C17", "C18", "C19")
 NA = [
  ("C03", "round trip is a numerical corollary of C01/C02 on three input families; it has no code of its own and no clause whose truth is in the shape of the code"),
  ("C09", "monotonicity relates the numerical results of two runs through different algorithms; no structural clause, and per-path correct rounding is not statically decidable here"),
@@ -76,7 +77,7 @@ def main():
             {"name": "E1 mlx-facts", "path": "driver/", "serves_properties": sorted(have), "kind_free_text": "rustc_private driver: items, visibility, evaluated consts/statics, polymorphic MIR summaries, monomorphic MIR with resolved callees, per feature configuration and assertion mode"},
             {"name": "E2 consts", "path": "mlxsa/consts.py", "serves_properties": [p for p in sorted(have) if p in ("C01","C02","C05","C06","C07","C11","C12","C14","C17","C18","C04")], "kind_free_text": "exact recomputation of constants/tables from definitions"},
             {"name": "E3 effects", "path": "mlxsa/effects.py", "serves_properties": [p for p in sorted(have) if p in ("C02","C12","C15","C16","C08","C13")], "kind_free_text": "who-may-call / what-may-be-mentioned / def-use rules with positive-control fixture crate"},
-            {"name": "E4 absint", "path": "mlxsa/absint/", "serves_properties": [p for p in sorted(have) if p in ("C04","C07","C08","C11","C13","C18","C19")], "kind_free_text": "abstract interpreter (intervals + linear facts, path-sensitive) over the monomorphic MIR"},
+            {"name": "E4 absint", "path": "mlxsa/absint/", "serves_properties": [p for p in sorted(have) if p in E4P], "kind_free_text": "abstract interpreter (intervals + linear facts, path-sensitive) over the monomorphic MIR"},
         ],
         "checks": [],
         "not_applicable": [{"property_id": p, "reason": r} for p, r in NA],
@@ -98,7 +99,7 @@ def main():
             "quick_cmd": "./check %s --quick" % pid,
             "thorough_cmd": "./check %s --thorough" % pid,
             "evidence_file": "evidence/%s.json" % pid,
-            "engine": "E1+E2+E3" + ("+E4" if pid in ("C04","C07","C08","C11","C13","C18","C19") else ""),
+            "engine": "E1+E2+E3" + ("+E4" if pid in E4P else ""),
             "level_claimed": {"category": cat, "text": text, "design_ref": ref},
             "level_note": NOTE,
             "technique": tech,
